@@ -63,6 +63,7 @@ type keyring struct {
 	ecJ, ecF         *ecdsa.PrivateKey
 	hmacJ            []byte
 	jwks             *pauth.LoadedJWKS
+	jwksJSON         []byte
 	pemA             []byte
 	mu               sync.Mutex
 	hmacs            map[string][]byte
@@ -127,23 +128,37 @@ func getKeys() *keyring {
 			map[string]any{"kty": "EC", "kid": "e1", "crv": "P-256", "x": b64(pad(k.ecJ.X.Bytes(), 32)), "y": b64(pad(k.ecJ.Y.Bytes(), 32))},
 			map[string]any{"kty": "oct", "kid": "h1", "alg": "HS256", "k": b64(k.hmacJ)},
 		}}
-		js, _ := json.Marshal(set)
-		f, err := os.CreateTemp("", "verif-jwks-*.json")
-		if err != nil {
-			panic(err)
-		}
-		_, _ = f.Write(js)
-		_ = f.Close()
-		defer os.Remove(f.Name())
-		jc := pauth.JWKSConfig{Endpoint: "file://" + f.Name()}
-		loaded, err := jc.Load(context.Background())
+		k.jwksJSON, _ = json.Marshal(set)
+		var err error
+		err = k.withJWKSFile(func(endpoint string) error {
+			jc := pauth.JWKSConfig{Endpoint: endpoint}
+			loaded, lerr := jc.Load(context.Background())
+			k.jwks = loaded
+			return lerr
+		})
 		if err != nil {
 			panic("load jwks through pkg/auth: " + err.Error())
 		}
-		k.jwks = loaded
 		keys = k
 	})
 	return keys
+}
+
+// withJWKSFile runs f with a file:// endpoint serving the process's JWK Set.
+func (k *keyring) withJWKSFile(f func(endpoint string) error) error {
+	tf, err := os.CreateTemp("", "verif-jwks-*.json")
+	if err != nil {
+		return err
+	}
+	_, _ = tf.Write(k.jwksJSON)
+	_ = tf.Close()
+	defer os.Remove(tf.Name())
+	return f("file://" + tf.Name())
+}
+
+func ecPEM(k *ecdsa.PrivateKey) string {
+	der, _ := x509.MarshalPKIXPublicKey(&k.PublicKey)
+	return string(pem.EncodeToMemory(&pem.Block{Type: "PUBLIC KEY", Bytes: der}))
 }
 
 func (k *keyring) hmacOf(owner string) []byte {
@@ -176,20 +191,21 @@ type cfgRec struct {
 	aud, iss         string
 	ddoe             bool
 	v                *pauth.JWTVerifier
+	raw              *pauth.Config // set when built through Config.Load
 }
 
 type tokRec struct {
-	str                 string
-	alg                 string
-	kid                 string // "-" | "s:<hex>" | "num"
-	signer              string
-	owner, ref          string // for signer k:<owner>:<ref>
-	tamper, shape       string
-	exp, nbf            *int64
-	aud                 []string
-	iss                 string
-	eps                 []string
-	reallySigned        bool // signature produced with the (owner, ref) key for this alg
+	str           string
+	alg           string
+	kid           string // "-" | "s:<hex>" | "num"
+	signer        string
+	owner, ref    string // for signer k:<owner>:<ref>
+	tamper, shape string
+	exp, nbf      *int64
+	aud           []string
+	iss           string
+	eps           []string
+	reallySigned  bool // signature produced with the (owner, ref) key for this alg
 }
 
 type fakeUp struct {
@@ -220,13 +236,13 @@ func (u *fakeUp) Dial() (net.Conn, error) {
 // fakeMgr is the upstream.Manager behind the real servers: an exact-match registry of fake
 // upstreams that records every call (so that any request reaching a route is observed).
 type fakeMgr struct {
-	mu      sync.Mutex
-	regs    map[string]*fakeUp
-	sel     []string
-	dialed  []string
-	added   []string
-	addCh   chan string
-	rmCh    chan string
+	mu     sync.Mutex
+	regs   map[string]*fakeUp
+	sel    []string
+	dialed []string
+	added  []string
+	addCh  chan string
+	rmCh   chan string
 }
 
 func newFakeMgr() *fakeMgr {
@@ -279,6 +295,7 @@ type authEngine struct {
 	mtv   *pauth.MultiTenantVerifier
 	ten   []string // configured tenants
 	hasMT bool
+	noVer bool // `mt … wire` decided the port gets no verifier
 	toks  map[string]*tokRec
 	mgr   *fakeMgr
 	srvs  map[string]*srvRec
@@ -295,7 +312,7 @@ func (e *authEngine) Reset() {
 	}
 	e.t0 = time.Now().Truncate(time.Second)
 	e.cfgs = map[string]*cfgRec{}
-	e.mtv, e.ten, e.hasMT = nil, nil, false
+	e.mtv, e.ten, e.hasMT, e.noVer = nil, nil, false, false
 	e.toks = map[string]*tokRec{}
 	e.mgr = newFakeMgr()
 	e.srvs = map[string]*srvRec{}
@@ -306,6 +323,18 @@ func hexList(s string) []string {
 		return nil
 	}
 	var out []string
+	for _, p := range strings.Split(s, ",") {
+		out = append(out, Unhx(p))
+	}
+	return out
+}
+
+// claimList parses a claim list: "none" = claim absent (nil), else the elements ("-" = "").
+func claimList(s string) []string {
+	if s == "none" {
+		return nil
+	}
+	out := []string{}
 	for _, p := range strings.Split(s, ",") {
 		out = append(out, Unhx(p))
 	}
@@ -1038,8 +1067,12 @@ func optInt(s string) (*int64, bool) {
 func (e *authEngine) Step(ws []string, o *Out) string {
 	switch ws[0] {
 	case "cfg":
-		if len(ws) != 9 {
+		if len(ws) != 9 && len(ws) != 10 {
 			return "bad-op"
+		}
+		via := "lit"
+		if len(ws) == 10 {
+			via = ws[9]
 		}
 		owner := Unhx(ws[1])
 		c := &cfgRec{hmac: ws[2] == "1", rsa: ws[3] == "1", ecdsa: ws[4] == "1", jwks: ws[5] != "-",
@@ -1048,46 +1081,96 @@ func (e *authEngine) Step(ws []string, o *Out) string {
 			return "bad-op keys"
 		}
 		k := getKeys()
-		lc := &pauth.LoadedConfig{Audience: c.aud, Issuer: c.iss, DisableDisconnectOnExpiry: c.ddoe}
-		if c.hmac {
-			lc.HMACSecretKey = k.hmacOf(owner)
-		}
-		if c.rsa {
-			// through the repository's own PEM parsing path
-			pk, err := jwt.ParseRSAPublicKeyFromPEM(k.pemA)
-			if err != nil {
-				return "bad-op pem"
+		switch via {
+		case "load":
+			// the production path: auth.Config (strings, as flags/YAML give them) -> Load -> NewJWTVerifier
+			raw := &pauth.Config{Audience: c.aud, Issuer: c.iss, DisableDisconnectOnExpiry: c.ddoe}
+			if c.hmac {
+				raw.HMACSecretKey = string(k.hmacOf(owner))
 			}
-			lc.RSAPublicKey = pk
+			if c.rsa {
+				raw.RSAPublicKey = string(k.pemA)
+			}
+			if c.ecdsa {
+				raw.ECDSAPublicKey = ecPEM(k.ecOf(owner))
+			}
+			var lc *pauth.LoadedConfig
+			load := func(endpoint string) error {
+				raw.JWKS.Endpoint = endpoint
+				var err error
+				lc, err = raw.Load(context.Background())
+				return err
+			}
+			var err error
+			if c.jwks {
+				err = k.withJWKSFile(load)
+			} else {
+				err = load("")
+			}
+			if err != nil {
+				o.Count("cfg:load-error")
+				return "load-error"
+			}
+			c.v, c.raw = pauth.NewJWTVerifier(lc), raw
+			o.Count("cfg:load")
+		case "lit":
+			lc := &pauth.LoadedConfig{Audience: c.aud, Issuer: c.iss, DisableDisconnectOnExpiry: c.ddoe}
+			if c.hmac {
+				lc.HMACSecretKey = k.hmacOf(owner)
+			}
+			if c.rsa {
+				// through the repository's own PEM parsing path
+				pk, err := jwt.ParseRSAPublicKeyFromPEM(k.pemA)
+				if err != nil {
+					return "bad-op pem"
+				}
+				lc.RSAPublicKey = pk
+			}
+			if c.ecdsa {
+				lc.ECDSAPublicKey = &k.ecOf(owner).PublicKey
+			}
+			if c.jwks {
+				lc.JWKS = k.jwks
+			}
+			c.v = pauth.NewJWTVerifier(lc)
+			o.Count("cfg:lit")
+		default:
+			return "bad-op"
 		}
-		if c.ecdsa {
-			lc.ECDSAPublicKey = &k.ecOf(owner).PublicKey
-		}
-		if c.jwks {
-			lc.JWKS = k.jwks
-		}
-		c.v = pauth.NewJWTVerifier(lc)
 		e.cfgs[owner] = c
 		return "ok"
 	case "mt":
 		d := e.cfgs[""]
-		if d == nil || len(ws) != 2 {
+		if d == nil || (len(ws) != 2 && !(len(ws) == 3 && ws[2] == "wire")) {
 			return "bad-op"
 		}
 		ts := hexList(ws[1])
 		var tv map[string]pauth.Verifier
-		if len(ts) > 0 {
+		if len(ts) > 0 || len(ws) == 3 {
 			tv = map[string]pauth.Verifier{}
 		}
 		for _, t := range ts {
 			c := e.cfgs[t]
-			if c == nil {
+			if c == nil || (len(ws) == 3 && c.raw == nil) {
 				return "bad-op"
 			}
 			tv[t] = c.v
 		}
+		if len(ws) == 3 {
+			// server/server.go: a verifier only when the port's auth is enabled or it has tenants
+			if d.raw == nil {
+				return "bad-op"
+			}
+			if !(d.raw.Enabled() || len(ts) > 0) {
+				e.mtv, e.ten, e.hasMT, e.noVer = nil, nil, true, true
+				return "ok none"
+			}
+			e.mtv = pauth.NewMultiTenantVerifier(d.v, tv)
+			e.ten, e.hasMT, e.noVer = ts, true, false
+			return "ok verifier"
+		}
 		e.mtv = pauth.NewMultiTenantVerifier(d.v, tv)
-		e.ten, e.hasMT = ts, true
+		e.ten, e.hasMT, e.noVer = ts, true, false
 		return "ok"
 	case "tok":
 		if len(ws) != 12 {
@@ -1100,15 +1183,8 @@ func (e *authEngine) Step(ws []string, o *Out) string {
 		if !ok1 || !ok2 {
 			return "bad-op"
 		}
-		if ws[9] != "none" {
-			t.aud = hexList(ws[9])
-			if t.aud == nil {
-				t.aud = []string{}
-			}
-		}
-		if ws[11] != "none" {
-			t.eps = hexList(ws[11])
-		}
+		t.aud = claimList(ws[9])
+		t.eps = claimList(ws[11])
 		if strings.HasPrefix(t.signer, "k:") {
 			p := strings.SplitN(t.signer, ":", 3)
 			if len(p) != 3 {
@@ -1136,6 +1212,9 @@ func (e *authEngine) Step(ws []string, o *Out) string {
 		r, ok := e.parseReq(ws[1], ws[2], ws[3])
 		if !ok {
 			return "bad-op"
+		}
+		if e.noVer {
+			return "auth no-verifier"
 		}
 		res := e.runMiddleware(r)
 		valid, t := e.gtValid(r)
@@ -1185,7 +1264,7 @@ func (e *authEngine) Step(ws []string, o *Out) string {
 		if len(ws) < 3 || !e.hasMT {
 			return "bad-op"
 		}
-		auth := ws[2] == "1"
+		auth := ws[2] == "1" && !e.noVer
 		var registry, withCluster bool
 		var keys []string
 		if len(ws) == 6 {
@@ -1430,6 +1509,7 @@ type gcfg struct {
 	hmac, rsa, ecdsa bool
 	jwks             bool
 	aud, iss         string
+	via              string
 }
 
 func (g *gen) cfg(owner string, keyless bool) gcfg {
@@ -1477,7 +1557,18 @@ func (g *gen) cfg(owner string, keyless bool) gcfg {
 	if c.jwks {
 		jw = jwksDesc
 	}
-	g.p("cfg %s %s %s %s %s %s %s %s", Hx(owner), B01(c.hmac), B01(c.rsa), B01(c.ecdsa), jw, Hx(c.aud), Hx(c.iss), B01(g.chance(25)))
+	ddoe := B01(g.chance(25))
+	c.via = "lit"
+	mixed := c.jwks && (c.hmac || c.rsa || c.ecdsa)
+	if mixed {
+		if g.chance(30) {
+			// Config.Load refuses a JWKS endpoint together with another key
+			g.p("cfg %s %s %s %s %s %s %s %s load", Hx(owner), B01(c.hmac), B01(c.rsa), B01(c.ecdsa), jw, Hx(c.aud), Hx(c.iss), ddoe)
+		}
+	} else if g.chance(60) {
+		c.via = "load" // the way server/server.go builds its verifiers
+	}
+	g.p("cfg %s %s %s %s %s %s %s %s %s", Hx(owner), B01(c.hmac), B01(c.rsa), B01(c.ecdsa), jw, Hx(c.aud), Hx(c.iss), ddoe, c.via)
 	return c
 }
 
@@ -1507,7 +1598,7 @@ func refsOf(c gcfg) [][2]string {
 
 var allAlgs = []string{"HS256", "HS384", "HS512", "RS256", "RS384", "RS512", "ES256", "ES384", "ES512", "PS256", "PS384", "EdDSA", "none", "NONE", "HS1", ""}
 
-var epAlphabet = []string{"ep", "ep2", "e", "EP", "ep.", "my-endpoint", "my-endpoint2", "my%2Dendpoint", "é✓", "a b"}
+var epAlphabet = []string{"ep", "ep2", "e", "EP", "ep.", "my-endpoint", "my-endpoint2", "my%2Dendpoint", "é✓", "a b", " my-endpoint ", "ep "}
 
 // tok emits one token for configuration c.  defect 0 = fully valid for c.
 func (g *gen) tok(id string, c gcfg, defect int, eps []string) gtok {
@@ -1593,6 +1684,33 @@ func (g *gen) tok(id string, c gcfg, defect int, eps []string) gtok {
 	return gtok{id: id, valid: valid && defect == 0}
 }
 
+// emptyTok: an HS* token signed with the zero-length secret, every claim as configuration c
+// wants it.  No configuration has the empty secret as a key, so it must never be accepted.
+func (g *gen) emptyTok(id string, c gcfg, eps []string) {
+	kid := "-"
+	if c.jwks && g.chance(40) {
+		kid = "s:" + Hx(Pick(g.r, []string{"h1", "r1", "e1"}))
+	}
+	aud := "none"
+	if c.aud != "" {
+		aud = Hx(c.aud)
+	}
+	e := "none"
+	if len(eps) > 0 {
+		var hs []string
+		for _, x := range eps {
+			hs = append(hs, Hx(x))
+		}
+		e = strings.Join(hs, ",")
+	}
+	g.p("tok %s %s %s empty none ok %s - %s %s %s", id, Hx(Pick(g.r, []string{"HS256", "HS384", "HS512"})), kid,
+		Pick(g.r, []string{"-", "3600"}), aud, Hx(c.iss), e)
+}
+
+var claimSets = [][]string{nil, {"ep"}, {"ep", "my-endpoint"}, {"my-endpoint"}, {"EP"}, {"ep."}, {"my%2Dendpoint"}, {"é✓", "ep2"},
+	// blank, whitespace-only, padded and duplicate entries: exact string equality on the claim as signed
+	{""}, {" "}, {"", ""}, {" my-endpoint "}, {"ep", "ep"}, {"ep", ""}, {"\tep"}, {"ep "}}
+
 var forms = []string{"bearer", "bearer", "bearer", "bearer", "bearer", "bearer", "bearer", "bearer", "bearer", "bearer", "bearer", "bearer",
 	"lower", "upper", "nospace", "dbl", "basic", "empty", "bare", "raw", "tab", "trail"}
 
@@ -1620,13 +1738,19 @@ func (g *gen) tenantsSetup(withTenants bool, keylessDefault bool) (gcfg, []gcfg)
 		}
 	}
 	var ids []string
+	allLoad := d.via == "load"
 	for _, t := range ts {
 		ids = append(ids, Hx(t.owner))
+		allLoad = allLoad && t.via == "load"
+	}
+	wire := ""
+	if allLoad && g.chance(70) {
+		wire = " wire" // server.go's rule: a verifier only if auth is enabled or tenants exist
 	}
 	if len(ids) == 0 {
-		g.p("mt -")
+		g.p("mt -%s", wire)
 	} else {
-		g.p("mt %s", strings.Join(ids, ","))
+		g.p("mt %s%s", strings.Join(ids, ","), wire)
 	}
 	return d, ts
 }
@@ -1662,15 +1786,30 @@ func (g *gen) caseMW(name string) {
 		}
 		var eps []string
 		if g.chance(40) {
-			eps = []string{Pick(g.r, epAlphabet)}
+			eps = claimSets[g.r.Intn(len(claimSets))]
 		}
 		id := strconv.Itoa(i + 1)
 		g.tok(id, c, defect, eps)
 		ids = append(ids, id)
 	}
+	// the empty-secret HS* token against every key configuration of the case
+	ec := all[g.r.Intn(len(all))]
+	g.emptyTok("9", ec, nil)
 	for i := 0; i < 6+g.r.Intn(5); i++ {
 		x, a := g.hdrs(ids)
 		g.p("req %s %s %s", x, a, g.tenantHdr(ts))
+	}
+	et := "-"
+	if len(ts) > 0 {
+		et = Hx(ec.owner)
+		if ec.owner == "" {
+			et = g.tenantHdr(ts)
+		}
+	}
+	if g.chance(50) {
+		g.p("req none:- bearer:9 %s", et)
+	} else {
+		g.p("req bearer:9 %s:%s %s", Pick(g.r, []string{"none", "bearer"}), ids[0], et)
 	}
 }
 
@@ -1687,6 +1826,7 @@ func (g *gen) caseSrv(name string) {
 	g.tok("1", c, 0, nil)
 	g.tok("2", c, 1+g.r.Intn(10), nil)
 	g.tok("3", c, Pick(g.r, []int{2, 4, 5}), nil) // never acceptable
+	g.emptyTok("4", c, nil)
 	tenant := "-"
 	if len(ts) > 0 {
 		tenant = Hx(ts[0].owner)
@@ -1722,6 +1862,7 @@ func (g *gen) caseSrv(name string) {
 		// a good Authorization must not rescue a bad x-piko-authorization
 		g.p("sweep %s bearer:3 bearer:1 %s", kind, tenant)
 	}
+	g.p("sweep %s %s %s", kind, Pick(g.r, []string{"none:- bearer:4", "bearer:4 none:-", "bearer:4 bearer:1"}), tenant)
 	for i := 0; i < 8; i++ {
 		p := paths[g.r.Intn(len(paths))]
 		m := Pick(g.r, []string{"GET", "GET", "GET", "POST", "DELETE", "HEAD"})
@@ -1783,7 +1924,6 @@ func (g *gen) caseConf(name string) {
 	g.p("case %s", name)
 	d, ts := g.tenantsSetup(g.chance(35), false)
 	all := append([]gcfg{d}, ts...)
-	claimSets := [][]string{nil, {"ep"}, {"ep", "my-endpoint"}, {"my-endpoint"}, {"EP"}, {"ep."}, {"my%2Dendpoint"}, {"é✓", "ep2"}}
 	var ids []string
 	var owners []string
 	var claims [][]string
@@ -1803,6 +1943,8 @@ func (g *gen) caseConf(name string) {
 		owners = append(owners, c.owner)
 		claims = append(claims, cl)
 	}
+	ec := all[g.r.Intn(len(all))]
+	g.emptyTok("9", ec, nil)
 	g.p("srv proxy 1")
 	g.p("srv upstream 1")
 	var reg []string
@@ -1815,6 +1957,18 @@ func (g *gen) caseConf(name string) {
 		g.p("up -")
 	} else {
 		g.p("up %s", strings.Join(reg, ","))
+	}
+	{
+		et := "-"
+		if len(ts) > 0 {
+			et = Hx(ec.owner)
+		}
+		raw := url.PathEscape(Pick(g.r, []string{"ep", "my-endpoint"}))
+		if g.chance(50) {
+			g.p("tcp %s %s none:- bearer:9 %s", Hx(raw), Hx("/_piko/v1/tcp/"+raw), et)
+		} else {
+			g.p("reg %s %s bearer:9 none:- %s", Hx(raw), Hx("/piko/v1/upstream/"+raw), et)
+		}
 	}
 	for i := 0; i < 8+g.r.Intn(5); i++ {
 		k := g.r.Intn(len(ids))
@@ -1856,6 +2010,9 @@ func (g *gen) caseConf(name string) {
 			}
 			g.p("http %s %s %s %s %s %s %s", Hx(host), Hx(hostnp), B01(net.ParseIP(hostnp) != nil), Hx(xep), x, a, tenant)
 		case 2:
+			if ep == "" {
+				ep = "ep" // an empty path segment is not a parameter value (gin's tree has its own rules there)
+			}
 			raw := escapeSeg(g.r, ep)
 			u, err := url.Parse("http://127.0.0.1/_piko/v1/tcp/" + raw)
 			if err != nil {
@@ -1863,6 +2020,9 @@ func (g *gen) caseConf(name string) {
 			}
 			g.p("tcp %s %s %s %s %s", Hx(raw), Hx(u.Path), x, a, tenant)
 		case 3:
+			if ep == "" {
+				ep = "ep"
+			}
 			raw := escapeSeg(g.r, ep)
 			u, err := url.Parse("http://127.0.0.1/piko/v1/upstream/" + raw)
 			if err != nil {
